@@ -105,6 +105,7 @@ type ContractSet struct {
 	Standins  []Standin
 	Locks     []LockDiscipline
 	Unopaque  []Unopaque
+	NilReset   map[string]bool // `nilreset pkg.Type.field`: a slice field that, when emptied, must become nil (never a reslice of itself)
 	FinalInit  map[string]string // final field -> the function that initialises it
 	InsertOnly map[string]bool // `insertonly pkg.Type.field`: a shared map whose entries are only ever added, never replaced
 	Sweeps    map[string]string // `sweep Cxx safety`: the check of Cxx also discharges the safety obligations of every contract listed under other properties
@@ -353,6 +354,18 @@ func (cs *ContractSet) loadContractText(path string, pkgPath string, text string
 				continue
 			}
 			cs.KeyTypes = append(cs.KeyTypes, fields[1])
+			cur = nil
+			lastText = nil
+			continue
+		case "nilreset":
+			if len(fields) != 2 {
+				errf(i, "nilreset pkg.Type.field")
+				continue
+			}
+			if cs.NilReset == nil {
+				cs.NilReset = map[string]bool{}
+			}
+			cs.NilReset[fields[1]] = true
 			cur = nil
 			lastText = nil
 			continue
